@@ -194,6 +194,11 @@ for _k, _v in EXTRA.items():
 # batch 11: integral curves are also delivered to the real code as int64 arrays (byte-count magnitudes included), references keep the float64 copy
 for _k in ('C02', 'C03', 'C08', 'C09', 'C10', 'C12', 'C13', 'C14', 'C15', 'C16', 'C18', 'C19'):
     CHECKS[_k]['note'] = CHECKS[_k]['note'] + ' Integral curves are also run as int64 arrays (small abscissae, heights up to byte-count size, DESIGN section 4 "domain decisions"); oracles and references stay on the float64 copy.'
+# batch 13: long inputs in every check
+for _k in CHECKS:
+    if _k != 'C20':
+        CHECKS[_k]['note'] = CHECKS[_k]['note'] + ' Every run includes a few LONG inputs (1100-1600 and beyond 4096 points / entries, deep recursion, a giant trace in C08); where the exact reference is quadratic only the direct predicates judge them.'
+CHECKS['C20']['note'] = CHECKS['C20']['note'] + ' Refilled-work-array clause: every registry function is also called on argument arrays that first held a sibling input and were then overwritten in place.'
 for p in props:
     i = p['id']
     if i in CHECKS:
